@@ -121,6 +121,10 @@ type c13World struct {
 	sctTS  uint64
 	wake   chan struct{} // signalled (never blocking) whenever an attempt reaches the transport
 
+	// timed mode (timed.go)
+	tsubs    []*timedSub
+	tByParty map[string]*timedSub
+
 	// shared-client model: J = latest instant any server response on this client asked to wait
 	// for; F = instant of the latest outcome (other than 408) the client may count as a failure
 	J, F time.Duration
